@@ -1439,6 +1439,8 @@ def execute(spec, options, sched_mode=None, knobs=None, defaults=None, label='ma
     rt.orig_stdout, rt.orig_stderr = out, err
     old = sys.stdout, sys.stderr, sys.stdin
     sys.stdout, sys.stderr = out, err
+    if not isinstance(sys.stdin, io.StringIO):
+        sys.stdin = io.StringIO('c\n' * 200)      # scripted answers for -D (pdb: continue)
     RecordingRunner.instances[:] = []
     if defaults is None and knobs.get('defaults_split') is not None:
         from . import world as _W
